@@ -15,7 +15,7 @@ def gen_script(rng, nops):
         lines.append('reg %d %d' % (p, rng.below(64)))       # every subset of the optional functions, default value on/off
     lines.append('update')
     njobs = 0
-    for _ in range(rng.range(0, 2)):
+    for _ in range(rng.range(0, 3)):
         k = rng.range(1, 2)
         reqs = []
         for p in sorted(set(rng.pick(pals) for _ in range(k))):
@@ -32,7 +32,7 @@ def gen_script(rng, nops):
         live = sorted(comps)
         c = rng.weighted([('createarch', 26), ('assignid', 16 if live else 0), ('removeid', 10 if live else 0), ('set', 12 if live else 0),
                           ('getconst', 6 if n else 0), ('has', 5 if n else 0), ('destroynow', 8 if live else 0), ('destroy', 4 if live else 0),
-                          ('update', 6), ('runjob', 10 if njobs else 0)])
+                          ('update', 6), ('runjob', 18 if njobs else 0)])
         if c == 'createarch':
             cs = sorted(set(rng.pick(pals) for _ in range(rng.range(0, 3))))
             lines.append(('createarch 0 ' + ' '.join(map(str, cs))).rstrip()); comps[n] = set(cs); n += 1
@@ -89,6 +89,10 @@ def run(tier, seed, replay=None):
         scripts = [(os.path.basename(replay), [l.rstrip('\n') for l in open(replay) if l.strip() and not l.startswith('#')])]
     else:
         scripts = [('g%d' % i, gen_script(rng.fork('c%d' % i), nops)) for i in range(n)]
+        # a C job that writes an OPTIONAL component, and a version-checked reader of that component
+        scripts.append(('optional_writer_then_checked_reader', ['maxthreads 16', 'threads 1', 'reg 8 0', 'reg 9 0', 'update', 'mkjob 1 8:1 9:2', 'mkjob 1 9:1 c 9',
+                                                                'createarch 0 8 9', 'createarch 0 8 9', 'createarch 0 8', 'createarch 0 8 9', 'runjob 1 0', 'runjob 0 0', 'runjob 1 0',
+                                                                'update', 'runjob 1 0', 'set #0 9 5', 'runjob 0 0', 'runjob 1 0']))
         scripts.append(('pod_swap_remove', ['maxthreads 16', 'threads 1', 'reg 8 0', 'reg 9 0', 'update', 'createarch 0 8 9', 'createarch 0 8 9', 'createarch 0 8 9',
                                             'set #0 8 101', 'set #1 8 102', 'set #2 8 103', 'set #0 9 201', 'set #1 9 202', 'set #2 9 203', 'destroynow 0 #0',
                                             'getconst #2 8', 'getconst #2 9', 'mkjob 1 8:1 9:0', 'runjob 0 0']))
@@ -118,7 +122,7 @@ def run(tier, seed, replay=None):
     violations = []
     # what a C++ PerEntityJob hands its callback (each selected entity once, its own values, null for an optional component the entity
     # lacks), judged on the C interface's job runs
-    ja = jobcheck.tier_a_jobs(capi, scripts, {'visits'}, no_layout=True)
+    ja = jobcheck.tier_a_jobs(capi, scripts, {'visits', 'nomiss'}, no_layout=True)
     cov['tierA_job_failures'] = len(ja)
     if ja and not fa:
         f = ja[0]
